@@ -4,6 +4,7 @@
 -/
 import XzVerif.Lemmas.RangeCoderAdaptive
 import XzVerif.Lemmas.LzmaChunk
+import XzVerif.Lemmas.RangeCoderRename
 import XzVerif.Model.Lzma2Enc
 import XzVerif.Model.Lzma2
 import XzVerif.Model.MfPos
@@ -111,6 +112,21 @@ theorem rc_flush_exact (e : Enc) (h : Inv e) :
     numLE (encFlush e).outRev = V (normalize e) ∧ (encFlush e).outRev.length = T (normalize e) + 4 :=
   ⟨(encFlush_spec h).1, (encFlush_spec h).2.1⟩
 
+
+/-- The bytes of the range encoder depend on the probability contexts only up to an injective renaming that respects the
+    current probability values. This is why two observed quirks are harmless: after an uncompressed LZMA2 chunk the C
+    encoder's `position` lags behind the true offset by `mf->read_ahead`, and with a preset dictionary the C decoder counts
+    positions from its dictionary position; a constant position shift renames the pos_state / literal-position contexts
+    injectively, and after a state reset all probabilities are equal. (That `encode_symbol` at a shifted position is such a
+    renaming is checked by the correspondence, not proved.) -/
+theorem rc_context_renaming (f : Nat → Nat) (hinj : ∀ a b, f a = f b → a = b) (ops : List Op) (ps1 ps2 : Probs)
+    (hr : Renamed f ps1 ps2) (hc : ∀ op ∈ ops, Op.ctxOk ps1.size op = true) :
+    (rcEncode ps2 (ops.map (opRename f))).1 = (rcEncode ps1 ops).1 :=
+  rcEncode_rename f hinj ops ps1 ps2 hr hc
+
+/-- `out_total` (used by the LZMA2 chunk-size rule and by the output-size limit) is the number of bytes written. -/
+theorem rc_out_total (e : Enc) (h : OutOk e) (hcs : 1 ≤ e.cacheSize) : OutOk (shiftLow e) ∧ OutOk (normalize e) :=
+  ⟨outOk_shiftLow h hcs, outOk_normalize h hcs⟩
 
 /-! ### symbol coder, LZMA1 streams, LZMA2 chunks -/
 
